@@ -35,7 +35,8 @@ ROOTS = ["get_literal_expr", "get_literal_from_factory"]
 TABLES = ["BUILTIN_TO_NAME", "NAME_TO_BUILTIN", "_CLS_TO_FACTORY_LITERAL"]
 MODULES = ["math"]
 PRIM_CALLS = {"type", "repr", "len", "sorted", "map"}
-KNOWN_EXCEPTIONS = {"KeyError", "TypeError", "IndexError", "_CannotBeRenderedError"}
+KNOWN_EXCEPTIONS = {"KeyError": "Exc.keyError", "TypeError": "Exc.typeError", "IndexError": "Exc.indexError",
+                    "_CannotBeRenderedError": "Exc.cannotBeRendered"}
 
 PINNED_DEFS = {
     "_CannotBeRenderedError": (
@@ -252,7 +253,7 @@ class FuncTranslator:
             node = node.func
         if not isinstance(node, ast.Name) or node.id not in KNOWN_EXCEPTIONS:
             bad(node, "exception class outside the known set")
-        return node.id
+        return KNOWN_EXCEPTIONS[node.id]
 
     def stmts(self, body: list[ast.stmt]) -> str:
         return lean_list(self.stmt(s) for s in body
@@ -269,7 +270,7 @@ class FuncTranslator:
         if isinstance(s, ast.Raise):
             if s.exc is None or s.cause is not None:
                 bad(s, "bare raise / raise from")
-            return f"Stmt.raise {lean_str(self.exc_name(s.exc))}"
+            return f"Stmt.raise {self.exc_name(s.exc)}"
         if isinstance(s, ast.If):
             return f"Stmt.ifThen ({self.expr(s.test)}) {self.stmts(s.body)} {self.stmts(s.orelse)}"
         if isinstance(s, ast.Try):
@@ -279,7 +280,7 @@ class FuncTranslator:
             if h.name is not None or h.type is None:
                 bad(s, "except ... as / bare except")
             types = h.type.elts if isinstance(h.type, ast.Tuple) else [h.type]
-            names = lean_list(lean_str(self.exc_name(t)) for t in types)
+            names = lean_list(self.exc_name(t) for t in types)
             return f"Stmt.tryExcept {self.stmts(s.body)} {names} {self.stmts(h.body)}"
         bad(s, "unsupported statement")
 
@@ -367,7 +368,7 @@ def generate(repo: Path) -> str:
     rows = []
     for n in builtin_names():
         v = lean_builtin_val(getattr(builtins, n))
-        rows.append(f"({lean_str(n)}, {v})")
+        rows.append(f"({lean_chars(n)}, {v})")
     out.append("/-- the interpreter's `builtins` namespace (a fact about Python, not about adaptix) -/")
     out.append("def pyBuiltins : Builtins :=\n  [" + ",\n   ".join(rows) + "]")
     out.append("")
@@ -382,7 +383,7 @@ def generate(repo: Path) -> str:
     out.append("")
 
     rows = []
-    for name, obj in mod.NAME_TO_BUILTIN.items():
+    for name, obj in sorted(mod.NAME_TO_BUILTIN.items(), key=lambda kv: str(kv[0])):
         v = lean_builtin_val(obj)
         if v is None or not isinstance(name, str):
             raise UnsupportedConstruct(f"NAME_TO_BUILTIN holds an entry outside the model: {name!r}: {obj!r}")
